@@ -598,6 +598,10 @@ func matrix() []runCfg {
 				for _, bl := range []int{999, 1000, 1001, 65536} {
 					out = append(out, runCfg{Word: w, Tail: r200, Method: "POST", BodyLen: bl, Consume: cons, SPN: spn, Etype: 18, Piecewise: true})
 				}
+				// a body on a method that usually has none, from a reader the transport cannot rewind by itself
+				for _, m := range []string{"GET", "DELETE"} {
+					out = append(out, runCfg{Word: w, Tail: r200, Method: m, BodyLen: 1001, Consume: cons, SPN: spn, Etype: 18, Piecewise: true})
+				}
 			}
 		}
 	}
